@@ -10,12 +10,17 @@
    destination that is up must be there. *)
 From Relay Require Import Base.Prelude Base.AList Model.Rwc.
 
+(* the three tables, when they were read: rules (id, stream, destination; sorted by id), clients
+   (id, destination), 10 * destination + stream of every client registered with the messages hub *)
+Definition tables := (list (N * N * N) * list (N * N) * list N)%type.
+
 Record obs := mkobs {
-  o_rules : list (N * N * N);     (* id, stream, destination; sorted by id *)
-  o_clients : list (N * N);       (* id, destination *)
-  o_members : list N;             (* 10 * destination + stream of every client registered with the messages hub *)
+  o_tables : option tables;
   o_open : list N;
   o_recv : list N }.
+
+(* the default id names r1, r2, .. are emitted by number alone: none of them is the reserved word *)
+Definition rid_plain (i : N) : N := i.
 
 Definition memN (x : N) (l : list N) : bool := existsb (N.eqb x) l.
 Definition subsetN (a b : list N) : bool := forallb (fun x => memN x b) a.
@@ -60,14 +65,23 @@ Definition open_ok (s : st) (reliable : list N) (l : list N) : bool :=
 Definition recv_ok (out reliable recv : list N) : bool :=
   subsetN recv out && subsetN (filter (fun d => memN d reliable) out) recv.
 
-Definition case := (list op * list obs * list N)%type.
+Definition case := (list op * list (option obs) * list N)%type.
 
-Fixpoint walk (s : st) (ops : list op) (bs : list obs) (reliable : list N) : bool :=
+Definition tables_ok (s : st) (t : option tables) : bool :=
+  match t with
+  | None => true
+  | Some (rs, cs, ms) => rules_ok s rs && clients_ok s cs && members_ok s ms
+  end.
+
+(* one entry per executed operation; None = nothing was observed after it (a wide table being filled) *)
+Fixpoint walk (s : st) (ops : list op) (bs : list (option obs)) (reliable : list N) : bool :=
   match ops, bs with
-  | o :: r, b :: br =>
+  | o :: r, ob :: br =>
       let '(s1, _, out) := step s o in
-      rules_ok s1 (o_rules b) && clients_ok s1 (o_clients b) && members_ok s1 (o_members b) && open_ok s1 reliable (o_open b) &&
-      recv_ok out reliable (o_recv b) && walk s1 r br reliable
+      match ob with
+      | None => true
+      | Some b => tables_ok s1 (o_tables b) && open_ok s1 reliable (o_open b) && recv_ok out reliable (o_recv b)
+      end && walk s1 r br reliable
   | _, [] => true
   | [], _ :: _ => false
   end.
